@@ -99,6 +99,8 @@ class BGPPeering(BGPFactory):
 
         # reference to the BGPProtocol instance in ESTAB state
         self.estab_protocol = None
+        # the pending outgoing connection attempt, if any
+        self.connector = None
 
     def buildProtocol(self, addr):
 
@@ -141,6 +143,10 @@ class BGPPeering(BGPFactory):
         :param reason: connection failed reason
         """
 
+        if connector is not self.connector:
+            # an attempt we aborted ourselves, see abort_connect()
+            return
+        self.connector = None
         error_msg = "[%s]Client connection failed: %s" % (self.peer_addr, reason.getErrorMessage())
         self.handler.on_connection_failed(self.peer_addr, reason.getErrorMessage())
         LOG.info(error_msg)
@@ -201,6 +207,12 @@ class BGPPeering(BGPFactory):
         if self.fsm.allow_automatic_start:
             self.automatic_start(idle_hold=True)
 
+    def abort_connect(self):
+        """Abort the outgoing TCP connection attempt if one is still pending."""
+        connector, self.connector = self.connector, None
+        if connector is not None and connector.state == 'connecting':
+            connector.stopConnecting()
+
     def connect_retry(self):
 
         """Called by FSM when we should reattempt to connect.
@@ -240,12 +252,14 @@ class BGPPeering(BGPFactory):
 
         if self.fsm.state != bgp_cons.ST_ESTABLISHED:
 
+            self.abort_connect()
             connector = reactor.connectTCP(
                 host=self.peer_addr,
                 port=bgp_cons.PORT,
                 factory=self,
                 timeout=30,
                 bindAddress=(self.my_addr, 0))
+            self.connector = connector
             if isinstance(self.md5, str) and self.md5:
                 md5sig = self.get_tcp_md5sig(self.md5, self.peer_addr, bgp_cons.PORT)
                 if md5sig:
